@@ -118,8 +118,12 @@ fn vamm_case(decimals: u8, x0: u128, y0: u128, blocks: &[Block], ctx: &Ctx, out:
             let ans: Result<Uint128, String> = sim.query(QueryMsg::TwapPrice { interval });
             let ans = match ans {
                 Ok(a) => a.u128(),
-                Err(_) => {
+                Err(e) => {
                     out.count("vamm.query_failed_unjudged");
+                    if std::env::var("PVERIF_ERRSTATS").is_ok() {
+                        let e: String = e.chars().filter(|c| !c.is_ascii_digit()).map(|c| if c == ' ' { '_' } else { c }).take(60).collect();
+                        out.count(&format!("err.{}", e));
+                    }
                     continue;
                 }
             };
